@@ -11,6 +11,7 @@ CONSTANTS
  SmudgedWT = FALSE
  RecentDays = 10
  EmitSel = 0
+ Thin = TRUE
  PruneFlags = {"none","dry-run","recent","force","verify-remote"}
 SPECIFICATION PSpec
 VIEW PView
